@@ -30,8 +30,8 @@ def plan(prop, tier, seed, t0):
     T = dict(module="Trace_Gen.tla", cfg="Trace_Gen.cfg", shards=W, timeout=1500 if q else 3000)
     th = [] if q else ["--thorough"]
     traces = [
-        dict(name="circuits", engine="gen", args=["--gens", "random_circuit,pauli_gadget,surface_code", "--seeds", 4 if q else 24] + th, **T),
-        dict(name="hidden_shift", engine="gen", args=["--gens", "hidden_shift", "--seeds", 12 if q else 60] + th, **T),
+        dict(name="circuits", engine="gen", args=["--gens", "random_circuit,pauli_gadget,surface_code", "--seeds", 4 if q else 40] + th, **T),
+        dict(name="hidden_shift", engine="gen", args=["--gens", "hidden_shift", "--seeds", 12 if q else 100] + th, **T),
         dict(name="stab_state", engine="gen", args=["--gens", "stab_state", "--seeds", 12 if q else 100] + th, **T),
     ]
     return run_plan(prop, tier, seed, t0, mcs, traces, "exploration", COMMON_ASSUME + [
@@ -62,7 +62,7 @@ META = dict(level="exploration", engine="gen", design_ref="DESIGN.md section 3 C
                  "layout; Pauli-gadget blocks = basis layer, one parity-phase gate of admissible weight and phase k*pi/denominator, "
                  "non-Clifford for even denominators >= 4, adjoint layer; stabiliser-state arity). Reproducibility and parameter conformance "
                  "are explored over sampled seeds x an admissible parameter grid (random circuits 1-5 qubits, depth 0-12, 9 probability "
-                 "settings incl. zeros; hidden shift 6 (and 8) qubits, clifford_depth <= 4, n_ccz <= 2; gadgets on 1-5 qubits, every "
+                 "settings incl. zeros and the convenience methods uniform / clifford_t / with_cliffords; hidden shift 6 (and 8) qubits, clifford_depth <= 4, n_ccz <= 2; gadgets on 1-5 qubits, every "
                  "denominator 2..8; stabiliser states on 0-5 qubits in both backends; surface code d <= 3). The two SEMANTIC promises are "
                  "not sampled numerically but decided exactly by TLC with the specification's own semantics on every recorded object: "
                  "|<shift|C|0..0>|^2 = 1 with the gate-matrix semantics CircSem (state-vector form, cross-checked against the full tensor) "
